@@ -358,7 +358,7 @@ func main() {
 		"write_sizes":                writeSizes,
 		"write_sequence_max_len":     harness.Pick(c, 2, 3),
 		"writer_modes":               "w=Write calls, rf=ReadFrom(scripted reader), rfe=ReadFrom(reader that returns the last bytes together with io.EOF), mix=first piece by Write then ReadFrom",
-		"readers":                    readers,
+		"readers":                    readerNames(),
 		"reader_modes":               "r=Read loop over the cyclic buffer sizes, wt=WriteTo(sink), mix=one Read per listed buffer then WriteTo (what service/tcp.go does after waiting for the initial payload)",
 		"transport":                  "atomic writes; grids every {1,2,7,4093} bytes; single cuts at every structural offset +-1 (prefix, salt, identity header, fixed header, tag, variable header, length chunks, payload chunks of the first 4 and the last transport write); all pairs of cuts in the handshake region; transport buffers {1, 4096, 65536, 1 MiB}",
 		"chain":                      "two tunnels; relay = io.Copy (typed WriteTo fast path) | dst.ReadFrom(src) (typed ReadFrom fast path) | plain 32 KiB Read/Write loop; optional 1440-byte wait-for-payload Read before dialing",
@@ -377,6 +377,18 @@ func main() {
 		c.Cap(fmt.Sprintf("executed %d of %d enumerated cases", cases, total))
 	}
 	c.Finish()
+}
+
+func readerNames() []string {
+	var out []string
+	for _, r := range readers {
+		if r.bufs == nil {
+			out = append(out, r.rm)
+		} else {
+			out = append(out, fmt.Sprintf("%s%v", r.rm, r.bufs))
+		}
+	}
+	return out
 }
 
 func tailOf(s string, n int) string {
